@@ -187,6 +187,24 @@ def c08_valSetCheckpointInterval : Int := 100000
 /-- cond types/validator_set.go verifyUpdates -/
 def c08_verifyUpdates_limit : String := "tvpAfterRemovals > MaxTotalVotingPower"
 
+/-- has light/client.go Client.backwards -/
+def c09_backwards_ends_in_new_header : Bool := true
+
+/-- has light/detector.go Client.compareNewHeaderWithWitness -/
+def c09_compare_returns_after_conflict : Bool := true
+
+/-- cond light/detector.go Client.detectDivergence -/
+def c09_detect_reads_cap : String := "i < cap(errc)"
+
+/-- const light/client.go verifySkippingDenominator -/
+def c09_skipDen : Int := 16
+
+/-- const light/client.go verifySkippingNumerator -/
+def c09_skipNum : Int := 9
+
+/-- cond light/verifier.go ValidateTrustLevel -/
+def c09_trust_level_guard : String := "lvl.Numerator*3 < lvl.Denominator || lvl.Numerator > lvl.Denominator || lvl.Denominator == 0"
+
 /-- has blockchain/v0/pool.go BlockPool.IsCaughtUp -/
 def c13_caughtup : Bool := true
 
@@ -222,6 +240,33 @@ def c13_v1_verify_call : Bool := true
 
 /-- has blockchain/v2/processor_context.go pContext.verifyCommit -/
 def c13_v2_verify_call : Bool := true
+
+/-- cond statesync/syncer.go syncer.AddChunk -/
+def c14_addChunk_rejected_sender_guard : String := "s.snapshots.IsPeerRejected(chunk.Sender)"
+
+/-- has statesync/stateprovider.go lightClientStateProvider.AppHash -/
+def c14_apphash_height_plus_one : Bool := true
+
+/-- order statesync/syncer.go syncer.applyChunks -/
+def c14_applyChunks_order : List String := ["Next", "ApplySnapshotChunkSync", "Discard", "RejectPeer", "DiscardSender", "Retry"]
+
+/-- cond statesync/chunks.go chunkQueue.Add -/
+def c14_queue_add_dup_guard : String := "q.chunkFiles[chunk.Index] != \"\""
+
+/-- const statesync/reactor.go recentSnapshots -/
+def c14_recentSnapshots : Int := 10
+
+/-- order statesync/syncer.go syncer.Sync -/
+def c14_sync_order : List String := ["AppHash", "offerSnapshot", "State", "Commit", "applyChunks", "verifyApp"]
+
+/-- cond statesync/syncer.go syncer.verifyApp -/
+def c14_verifyApp_hash_guard : String := "!bytes.Equal(snapshot.trustedAppHash, resp.LastBlockAppHash)"
+
+/-- cond statesync/syncer.go syncer.verifyApp -/
+def c14_verifyApp_height_guard : String := "uint64(resp.LastBlockHeight) != snapshot.Height"
+
+/-- cond statesync/syncer.go syncer.verifyApp -/
+def c14_verifyApp_version_guard : String := "resp.AppVersion != appVersion"
 
 /-- cond consensus/wal.go WALDecoder.Decode -/
 def c15_decode_clean_eof : String := "errors.Is(err, io.EOF) && nr == 0"
@@ -514,6 +559,6 @@ def pv_stepPropose : Int := 1
 /-- has privval/file.go FilePV.signVote -/
 def pv_vote_persist_before_release : Bool := true
 
-def factCount : Nat := 171
+def factCount : Nat := 186
 
 end Tmv.Facts
